@@ -120,12 +120,50 @@ class World:
         self._gc()
 
     def clone(self):
-        """an independent copy of the objects with the same sharing and the same ids"""
+        """an independent copy of the live objects with the same sharing and the same ids, rebuilt through the public
+        constructors from the objects' own attributes (copy.deepcopy of a Field recurses in Field.__getattr__)"""
+        df = self.df
         w = World.__new__(World)
-        w.df, w.emb, w.scratch, w.nfile = self.df, self.emb, self.scratch, self.nfile
-        w.obj, w.vars = copy.deepcopy((self.obj, self.vars))
+        w.df, w.emb, w.scratch, w.nfile, w.last_cond = self.df, self.emb, self.scratch, self.nfile, ""
+        memo = {}
+        meshes = [o for o in self.obj.values() if isinstance(o, df.Mesh)]
+
+        def region(old):
+            if id(old) in memo:
+                return memo[id(old)]
+            for m in meshes:
+                if any(s is old for s in m.subregions.values()):
+                    mesh(m)
+                    return memo[id(old)]
+            memo[id(old)] = df.Region(p1=old.pmin.copy(), p2=old.pmax.copy(), dims=list(old.dims), units=list(old.units),
+                                      tolerance_factor=old.tolerance_factor)
+            return memo[id(old)]
+
+        def mesh(old):
+            if id(old) in memo:
+                return memo[id(old)]
+            reg = region(old.region)
+            subs = {nm: df.Region(p1=sr.pmin.copy(), p2=sr.pmax.copy(), dims=list(sr.dims), units=list(sr.units)) for nm, sr in old.subregions.items()}
+            new = df.Mesh(region=reg, n=tuple(int(v) for v in old.n), bc=old.bc, subregions=subs)
+            memo[id(old)] = new
+            for nm, sr in old.subregions.items():
+                memo[id(sr)] = new.subregions[nm]
+            return new
+
+        def field(old):
+            if id(old) in memo:
+                return memo[id(old)]
+            memo[id(old)] = df.Field(mesh(old.mesh), nvdim=old.nvdim, value=np.array(old.array, copy=True), valid=np.array(old.valid, copy=True),
+                                     vdims=list(old.vdims) if old.vdims else None, vdim_mapping=dict(old.vdim_mapping), unit=old.unit,
+                                     dtype=old.array.dtype)
+            return memo[id(old)]
+
+        def any_(old):
+            return field(old) if isinstance(old, df.Field) else mesh(old) if isinstance(old, df.Mesh) else region(old)
+
+        w.obj = {o: any_(real) for o, real in sorted(self.obj.items())}
+        w.vars = {x: memo[id(v)] for x, v in self.vars.items()}
         w.oid = {id(real): o for o, real in w.obj.items()}
-        w.last_cond = ""
         return w
 
     def masks_shared(self):
